@@ -516,7 +516,7 @@ func runC13(c *core.Ctx) {
 				// after the initialiser: AddFirst comes after the initializer calls so that it ends up first
 				core.AllInstrs(sc, func(x ssa.Instruction) {
 					if cc := core.CallCommon(x); cc != nil && !cc.IsInvoke() {
-						if f, _ := core.FieldOf(cc.Value); f != nil && strings.Contains(strings.ToLower(f.Name()), "initializer") {
+						if f, _ := core.FieldOf(cc.Value); f != nil && core.NamedIs(f.Type(), p.Module, "ChannelInitializer") {
 							if !core.Dominates(x, addFirst) {
 								t2, _ := core.Search(addFirst, nil, func(y ssa.Instruction) core.Action {
 									if y == x {
